@@ -674,7 +674,7 @@ func (r *c15Run) monSelected(op *c15Op, before c15Snap, ai int, probe bool, hash
 		if sh.probes > sh.enq {
 			r.fail("failover/probe-not-single", fmt.Sprintf("adapter %d (endpoint %d) handed out as probe %d times for %d queued request(s)", ai, sh.eid, sh.probes, sh.enq))
 		}
-		r.pcall[ai] = true
+		r.pcall[ai] = !r.adps[ai].VerifC15Health().Status // was it (still) blocked when it was handed out?
 		r.classes["probe-call"] = true
 		if op.Hash != 0 {
 			r.classes["probe-call-hash"] = true
@@ -702,8 +702,9 @@ func (r *c15Run) monSelected(op *c15Op, before c15Snap, ai int, probe bool, hash
 // monitors once the outcome of the call has been accounted (s = snapshot after it, before any reinstatement)
 func (r *c15Run) monOutcome(adp *tars.AdapterProxy, ai int, probe, ok bool, s c15Snap) {
 	sh := r.sh[ai]
+	wasBlocked := r.pcall[ai]
 	delete(r.pcall, ai)
-	if probe && !ok {
+	if probe && !ok && wasBlocked { // (an adapter reinstated by an earlier answered probe can still have a request queued)
 		if adp.VerifC15Health().Status || (!r.shrunk && r.inAnySelector(s, sh.eid)) {
 			r.fail("failover/failed-probe-reinstated", fmt.Sprintf("the probe of endpoint %d failed but status=%v selectors rr=%b", sh.eid, adp.VerifC15Health().Status, s.rr))
 		}
